@@ -139,6 +139,8 @@ impl EventGen for ReuseElement {
                 instance_element.set_attr("y", &fstr(y + pos.dy.unwrap_or(0.)));
             }
         } else if is_placed {
+            // (the template's own anchors give way, in whatever form they are written)
+            instance_element.expand_compound_pos();
             pos.set_position_attrs(&mut instance_element);
         }
 
